@@ -336,6 +336,35 @@ Theorem C02_source_long_position_vector_roundtrip : forall m st mid tst lat lon 
 Proof. exact src_lpv_roundtrip. Qed.
 Print Assumptions C02_source_long_position_vector_roundtrip.
 
+Theorem C02_source_short_position_vector_decoder_is_the_model : forall data, wf_bytes data = true -> length data = 20%nat ->
+  SPV_decode data = option_map spv_tuple (dec_spv data).
+Proof. exact src_spv_decode. Qed.
+Print Assumptions C02_source_short_position_vector_decoder_is_the_model.
+
+Theorem C02_source_short_position_vector_roundtrip : forall m st mid tst lat lon,
+  0 <= m < 2 -> 0 <= st <= 12 -> wf_bytes mid = true -> length mid = 6%nat -> 0 <= tst < 2 ^ 32 ->
+  - 2 ^ 31 <= lat < 2 ^ 31 -> - 2 ^ 31 <= lon < 2 ^ 31 ->
+  exists octets, SPV_encode m st mid tst lat lon = Some octets /\ length octets = 20%nat /\
+    SPV_decode octets = Some ((m, st, mid), tst, lat, lon).
+Proof. exact src_spv_roundtrip. Qed.
+Print Assumptions C02_source_short_position_vector_roundtrip.
+
+(* extended-header decoders of the source = the model's decoders, for every byte string of any length (too short: both fail) *)
+Theorem C02_source_tsb_decoder_is_the_model : forall header, wf_bytes header = true ->
+  TSB_decode header = option_map tsb_tuple (dec_tsb header).
+Proof. exact src_tsb_decode. Qed.
+Print Assumptions C02_source_tsb_decoder_is_the_model.
+
+Theorem C02_source_guc_and_ls_reply_decoder_is_the_model : forall header, wf_bytes header = true ->
+  GUC_decode header = option_map guc_tuple (dec_guc header) /\ LSRep_decode header = GUC_decode header.
+Proof. exact src_guc_decode. Qed.
+Print Assumptions C02_source_guc_and_ls_reply_decoder_is_the_model.
+
+Theorem C02_source_ls_request_decoder_is_the_model : forall header, wf_bytes header = true ->
+  LSReq_decode header = option_map lsreq_tuple (dec_lsreq header).
+Proof. exact src_lsreq_decode. Qed.
+Print Assumptions C02_source_ls_request_decoder_is_the_model.
+
 Example C02_source_example :
   LPV_encode 0 5 [0; 0; 0; 0; 43; 103] 123456 (-338688000) (-1512093000) 1 (-300) 3599
   = Some (enc_lpv [0; 5; 11111; 123456; -338688000; -1512093000; 1; -300; 3599]).
